@@ -24,7 +24,7 @@ claim('C07', 'model_checking',
       'exhaustive enumeration of rule strings and rule x message products plus explicit-state BFS over rule-set histories on the real bus, judged by a transcription of the specification\'s match-rule grammar and semantics',
       'AddMatch is given every concatenation of <= k lexical pieces (keys, misspelt keys, =, comma, quote, backslash, valid/invalid values) and templated/boundary rules; every pool rule and every pair '
       'of rules is crossed with every probe message (all keys, absent fields, prefix/extension values, non-string and missing arguments, unicast with and without eavesdrop); AddMatch/RemoveMatch/disconnect '
-      'histories are explored breadth-first with the implementation\'s rule dump in the state key. Delivery must be exactly-once iff a held rule matches per the specification; sanitizers must stay silent.',
+      'histories are explored breadth-first with the implementation\'s rule dump in the state key. Delivery must be exactly-once iff a held rule matches per the specification; sanitizers must stay silent. Further parts: quoting semantics (the denoted value must be what is matched), rules naming prefix-related unique names across disconnects, and fan-out scenarios in which a recipient the bus must skip (no descriptor passing, receive policy) sits at every position among three holders.',
       'Trusts pyv/models/matchrules.py. Rule strings longer than k pieces other than the templated ones, and more than two holders, are not covered. Forms the specification leaves open '
       '(whitespace outside quotes, empty items, duplicate keys) are counted as unspecified and not judged.',
       'DESIGN.md section 4 C07')
